@@ -41,7 +41,7 @@ ASSUMPTIONS = [
     "uninterpreted functions other than f_evm_* are interpreted by one arbitrary deterministic table on both sides",
     "z3's SMT-LIB parser is trusted to read back what the solver will read",
 ]
-WATCHDOG_S = {"quick": 1500, "thorough": 7200}
+WATCHDOG_S = {"quick": 2400, "thorough": 10800}
 
 MANIFEST = {
     "technique": "round-trip/differential check of query serialisation: the dumped SMT-LIB file is parsed back and compared assertion-by-assertion with Path.conditions under generated valuations (symeval on both sides); token-level and semantic check of refine(); named-assertion encoding compared with the plain one",
